@@ -19,6 +19,7 @@ N4  `A[k] = A[k] + e`  ->  `A[k] += e`   (read-modify-write of one array cell; n
 N5  `if c: r = A` / `else: r = B` ; `return r`  ->  `return A` / `return B`   (one result variable returned at the end of the function).
 N6  `r = f(..); a = r[0]; b = r[1]`  ->  `a, b = f(..)`   (a tuple result kept whole and only indexed).
 N7  `0 > k`  ->  `k < 0`   (numeric constant moved to the right-hand side of a single comparison).
+N8  `if a:` / `    if b: S`  ->  `if a and b: S`   (nested ifs without else arms).
 
 Nothing else is rewritten; line numbers of the surviving nodes are kept, inlined statements carry the line of the call.
 """
@@ -83,7 +84,9 @@ def _subst_node(e: ast.AST, old: ast.AST, new: ast.AST) -> ast.AST:
 class _IfExpAssign(ast.NodeTransformer):
     def visit_Assign(self, node: ast.Assign):
         self.generic_visit(node)
-        if len(node.targets) == 1 and isinstance(node.targets[0], (ast.Name, ast.Attribute)):
+        if len(node.targets) == 1 and (isinstance(node.targets[0], (ast.Name, ast.Attribute)) or (
+                isinstance(node.targets[0], ast.Subscript) and all(isinstance(x, (ast.Name, ast.Constant, ast.Tuple, ast.Subscript, ast.Load, ast.Store))
+                                                                   for x in ast.walk(node.targets[0])))):
             v = _first_ifexp(node.value)
             if v is not None:
                 a = ast.Assign(targets=[copy.deepcopy(node.targets[0])], value=_subst_node(node.value, v, v.body),
@@ -153,13 +156,28 @@ def _simple(e: ast.AST) -> bool:
     return isinstance(e, (ast.Name, ast.Constant)) or (isinstance(e, ast.Attribute) and _simple(e.value))
 
 
+def _own_nodes(st: ast.AST):
+    """the nodes of a statement that belong to the enclosing function (nested function / class bodies excluded)"""
+    stack = [st]
+    while stack:
+        n = stack.pop()
+        yield n
+        for c in ast.iter_child_nodes(n):
+            if isinstance(c, (ast.FunctionDef, ast.AsyncFunctionDef, ast.ClassDef, ast.Lambda)):
+                continue
+            stack.append(c)
+
+
 def _has_bad_return(stmts: List[ast.stmt]) -> bool:
-    """a return anywhere but at the tail positions this converter understands"""
+    """a return anywhere but at the tail positions this converter understands (a nested function is an opaque statement:
+    its own returns are not returns of the helper)"""
     for st in stmts:
         if isinstance(st, (ast.For, ast.While, ast.Try, ast.AsyncFor)):
-            if any(isinstance(x, (ast.Return, ast.Yield, ast.YieldFrom)) for x in ast.walk(st)):
+            if any(isinstance(x, (ast.Return, ast.Yield, ast.YieldFrom)) for x in _own_nodes(st)):
                 return True
-        if isinstance(st, (ast.FunctionDef, ast.ClassDef, ast.AsyncFunctionDef)):
+        if isinstance(st, (ast.ClassDef, ast.AsyncFunctionDef)):
+            return True
+        if isinstance(st, ast.FunctionDef) and any(isinstance(x, (ast.Nonlocal, ast.Global)) for x in ast.walk(st)):
             return True
     return False
 
@@ -172,7 +190,7 @@ def _convert(stmts: List[ast.stmt], emit) -> Optional[List[ast.stmt]]:
         if isinstance(st, ast.Return):
             out.extend(emit(st.value, st))
             return out
-        if isinstance(st, ast.If) and any(isinstance(x, ast.Return) for x in ast.walk(st)):
+        if isinstance(st, ast.If) and any(isinstance(x, ast.Return) for x in _own_nodes(st)):
             rest = stmts[i + 1:]
             body_ends = _ends_in_return(st.body)
             else_ends = _ends_in_return(st.orelse) if st.orelse else False
@@ -195,7 +213,7 @@ def _convert(stmts: List[ast.stmt], emit) -> Optional[List[ast.stmt]]:
                 out.append(ast.If(test=st.test, body=b, orelse=o, lineno=st.lineno, col_offset=0))
                 return out
             return None
-        if isinstance(st, ast.With) and any(isinstance(x, ast.Return) for x in ast.walk(st)):
+        if isinstance(st, ast.With) and any(isinstance(x, ast.Return) for x in _own_nodes(st)):
             if stmts[i + 1:]:
                 return None
             b = _convert(st.body, emit)
@@ -604,9 +622,11 @@ class _ConstantOnTheRight(ast.NodeTransformer):
     """`0 > k`  ->  `k < 0`   (a single comparison whose left operand is a numeric constant and whose right one is not)"""
     def visit_Compare(self, node: ast.Compare):
         self.generic_visit(node)
-        if len(node.ops) == 1 and type(node.ops[0]) in _MIRROR and isinstance(node.left, ast.Constant) \
-                and isinstance(node.left.value, (int, float)) and not isinstance(node.left.value, bool) \
-                and not isinstance(node.comparators[0], ast.Constant):
+        def numeric(e):
+            if isinstance(e, ast.UnaryOp) and isinstance(e.op, (ast.USub, ast.UAdd)):
+                e = e.operand
+            return isinstance(e, ast.Constant) and isinstance(e.value, (int, float)) and not isinstance(e.value, bool)
+        if len(node.ops) == 1 and type(node.ops[0]) in _MIRROR and numeric(node.left) and not numeric(node.comparators[0]):
             return ast.copy_location(ast.Compare(left=node.comparators[0], ops=[_MIRROR[type(node.ops[0])]()], comparators=[node.left]), node)
         return node
 
@@ -689,6 +709,19 @@ def _indexed_result_to_unpacking(tree: ast.Module) -> None:
                                                   for j in idxs], ctx=ast.Store())]
 
 
+class _MergeNestedIfs(ast.NodeTransformer):
+    """`if a:` containing only `if b: S` (neither with an else)  ->  `if a and b: S`"""
+    def visit_If(self, node: ast.If):
+        self.generic_visit(node)
+        while not node.orelse and len(node.body) == 1 and isinstance(node.body[0], ast.If) and not node.body[0].orelse:
+            inner = node.body[0]
+            left = node.test.values if isinstance(node.test, ast.BoolOp) and isinstance(node.test.op, ast.And) else [node.test]
+            right = inner.test.values if isinstance(inner.test, ast.BoolOp) and isinstance(inner.test.op, ast.And) else [inner.test]
+            node.test = ast.copy_location(ast.BoolOp(op=ast.And(), values=list(left) + list(right)), node.test)
+            node.body = inner.body
+        return node
+
+
 def normalise(tree: ast.Module, modname: str) -> List[str]:
     if os.environ.get("GBSA_NO_NORMALIZE"):
         return []
@@ -699,5 +732,6 @@ def normalise(tree: ast.Module, modname: str) -> List[str]:
     _result_variable_to_returns(tree)
     _indexed_result_to_unpacking(tree)
     _ConstantOnTheRight().visit(tree)
+    _MergeNestedIfs().visit(tree)
     ast.fix_missing_locations(tree)
     return notes
